@@ -767,13 +767,14 @@ fn tiny_env<K, KH>(t: &TinyLFU<K, KH>) -> String {
         format!("scheme=std seeds={}", s.join(","))
     };
     format!(
-        "env {} mask={:x} bwords={} bmask={} blocs={} bshift={}",
+        "env {} mask={:x} bwords={} bmask={} blocs={} bshift={} samples={}",
         scheme,
         d.mask,
         d.bloom_bits.len(),
         d.bloom_mask,
         d.bloom_locs,
-        d.bloom_shift
+        d.bloom_shift,
+        d.samples
     )
 }
 
